@@ -182,7 +182,7 @@ def build_pool(fam, rng):
 
 
 OPS = ('is_valid', 'iter_errors', 'validate', 'decode_strict', 'decode_lax', 'decode_skip', 'to_objects', 'encode',
-       'component', 'path_errors', 'lazy_errors', 'hook_stop', 'extra_raise', 'abandon', 'failpoint', 'simple_scratch', 'cache_toggle')
+       'component', 'find_children_as_globals', 'path_errors', 'lazy_errors', 'hook_stop', 'extra_raise', 'abandon', 'failpoint', 'simple_scratch', 'cache_toggle')
 ABORTING = ('hook_stop', 'extra_raise', 'abandon', 'failpoint', 'validate', 'decode_strict')
 
 
@@ -228,6 +228,16 @@ def run_op(xmlschema, schema, op, text, arg, failpoint):
         # the memo caches of the global maps switched off / on again: later results must not depend on it
         schema.maps.cache.enabled = not schema.maps.cache.enabled
         return 'toggled'
+    if op == 'find_children_as_globals':
+        # what the schema's own XPath view resolves for the names of the root's children (a local declaration is not a
+        # global element, whatever was validated before)
+        root = xmlschema.XMLResource(text).root
+        out = []
+        for tag in sorted({c.tag for c in root if not callable(c.tag)}):
+            ns, _, local = tag[1:].rpartition('}') if tag.startswith('{') else ('', '', tag)
+            found = schema.find(f'p:{local}', {'p': ns}) if ns else schema.find(local)
+            out.append((tag, None if found is None else (type(found).__name__, found.name, found.parent is None)))
+        return out
     if op == 'component':
         res = xmlschema.XMLResource(text)
         root = res.root
